@@ -60,6 +60,7 @@ def param_tokens(ex, r):
     out = []
     if "string" in types or t == "stringlist":
         out.append([b'"p"'])
+        out.append([b"text:\nmulti\nline\n."])       # a string may always be written as a multi-line literal
     if "stringlist" in types:
         out.append([b"[", b'"p"', b",", b'"q"', b"]"])
     if "number" in types:
@@ -67,7 +68,13 @@ def param_tokens(ex, r):
     return out
 
 
+_RT = [0]
+
+
 def req_tokens(a):
+    _RT[0] += 1
+    if "string" in a["type"] and _RT[0] % 5 == 0:
+        return [b"text:\nrequired\n."]
     if "number" in a["type"]:
         return [b"42"]
     if "stringlist" in a["type"]:
@@ -114,7 +121,7 @@ def uses(name, d, r, limit):
 def wrap(d, toks, need):
     exts = sorted(need | ({d["extension"]} if d["extension"] else set()))
     req = (b'require [' + b",".join(b'"%s"' % e.encode() for e in exts) + b'];\n') if exts else b""
-    body = b" ".join(toks)
+    body = b"".join(t + (b"\n" if t.startswith(b"text:") else b" ") for t in toks).rstrip(b" ")
     return req + (b"if " + body + b" { stop; }" if d["kind"] == "test" else body + b";")
 
 
@@ -161,7 +168,7 @@ def run(ctx):
                 for kind, pos, mt in __import__("gen_scripts").single_edits(toks, [b'"z"', b"9", b":alpha", b":nosuch", b";", b"[", b"stop"], r, limit=3)[:25]:
                     cases.append((wrap(d2, mt, need), "edit", mt, None, None))
                 if need or d2["extension"]:
-                    cases.append((b" ".join(toks) + b";" if d2["kind"] == "action" else b"if " + b" ".join(toks) + b" {stop;}", "norequire", toks, None, None))
+                    cases.append((wrap(dict(d2, extension=None), toks, set()), "norequire", toks, None, None))
             texts = [c[0] for c in cases]
             lines = ["table-add " + wire, "table-safe"]
             for t in texts:
